@@ -95,7 +95,14 @@ package path
 //@   ensures inf.SegID == old(inf.SegID)^(uint16(hfMac[0])<<8|uint16(hfMac[1]))
 
 //@ # registered path constructors return non-nil paths (assumption about RegisterPath callers)
+//@ import scion "github.com/scionproto/scion/pkg/slayers/path/scion"
+//@ import onehop "github.com/scionproto/scion/pkg/slayers/path/onehop"
+//@ import epic "github.com/scionproto/scion/pkg/slayers/path/epic"
 //@ func NewPath
 //@   trusted
 //@   modifies nothing
 //@   ensures result1 == nil ==> result0 != nil
+//@   # the registered constructors return newly allocated objects (New: func() path.Path { return &Raw{} } etc.)
+//@   ensures result1 == nil && typeis(result0, *scion.Raw) ==> fresh(asptr(result0, *scion.Raw))
+//@   ensures result1 == nil && typeis(result0, *onehop.Path) ==> fresh(asptr(result0, *onehop.Path))
+//@   ensures result1 == nil && typeis(result0, *epic.Path) ==> fresh(asptr(result0, *epic.Path))
